@@ -50,6 +50,18 @@ Plan gen(uint64_t seed, const std::string& tier) {
                 fparam = r.chance(0.5) ? fs : r.range(1, nn - 1);
             }
             op.a = {double(fs), f, double(nn), double(r.seed32()), double(style), double(r.seed32()), double(fparam)};
+            if (r.chance(0.25) && i + 1 < nops) {
+                // a sibling instance that differs only in the fractional part of f (instances must not influence one another)
+                pl.ops.push_back(op);
+                ++i;
+                const double fi = std::trunc(f);
+                double f2 = fi + r.pick(std::vector<double>{0.0, 0.25, 0.5, 0.75}) * ((f < 0 || fi <= -double(half)) ? -1.0 : 1.0);
+                if (std::fabs(f2) > double(half)) {
+                    f2 = fi;
+                }
+                op.a[1] = f2;
+                op.a[3] = double(r.seed32());
+            }
         } else {
             op.kind = "hilbert";
             const int64_t flen = r.range(31, big ? 401 : 201);
